@@ -394,6 +394,21 @@ def tr_facade(scsi_mod):
                     call = {"cls": v.func.id, "lineno": n.lineno,
                             "args": [ast.unparse(a) for a in v.args],
                             "keywords": [[k.arg, ast.unparse(k.value)] for k in v.keywords]}
+                    # bind the call's arguments to the constructor's parameter names
+                    try:
+                        kls = getattr(scsi_mod, v.func.id)
+                        pn = [p for p in inspect.signature(kls.__init__).parameters.values()][1:]
+                        pos = [p.name for p in pn if p.kind in (p.POSITIONAL_ONLY, p.POSITIONAL_OR_KEYWORD)]
+                        bound = []
+                        for i, a in enumerate(v.args):
+                            bound.append([pos[i] if i < len(pos) else "*", ast.unparse(a)])
+                        for k in v.keywords:
+                            bound.append([k.arg if k.arg else "**", ast.unparse(k.value)])
+                        call["bound"] = bound
+                        call["ctor_params"] = pos
+                        call["ctor_kwargs"] = any(p.kind == p.VAR_KEYWORD for p in pn)
+                    except Exception as e:
+                        call["bound"] = None
                     m["classes"].append(v.func.id)
                     m["calls"].append(call)
                     events.append((n.lineno, "construct"))
@@ -646,10 +661,14 @@ def emit(data):
              "/-- where a facade method takes its operation code from -/",
              "inductive OpSrc | name (n : String) | suffix (s : String) | missing",
              "  deriving DecidableEq, Repr", "",
+             "/-- one `cmd = Class(...)` statement: class, (constructor parameter, facade expression) pairs -/",
+             "structure Call where",
+             "  cls : String", "  bound : List (String × String)", "  ctorParams : List String", "  ctorKwargs : Bool",
+             "  deriving DecidableEq, Repr", "",
              "structure FacadeMethod where",
-             "  name : String", "  opcode : OpSrc", "  classes : List String",
+             "  name : String", "  params : List String", "  kwargs : Bool", "  opcode : OpSrc", "  calls : List Call",
              "  events : List String   -- construct / execute / unmarshall / return, in source order",
-             "  enRawSense : Bool", "  deriving DecidableEq, Repr", "",
+             "  enRawSense : Bool", "  unmarshallArgs : List (String × String)", "  deriving DecidableEq, Repr", "",
              "def facade : List FacadeMethod := ["]
     fl = []
     for m in data["facade"]:
@@ -659,10 +678,19 @@ def emit(data):
             src = "(.name %s)" % lean_str(m["opcode"][1])
         else:
             src = "(.suffix %s)" % lean_str(m["opcode"][1])
-        fl.append("  ⟨%s, %s, [%s], [%s], %s⟩" % (lean_str(m["name"]), src,
-                                                 ", ".join(lean_str(c) for c in m["classes"]),
-                                                 ", ".join(lean_str(e) for e in m["events"]),
-                                                 "true" if m["en_raw_sense"] else "false"))
+        calls = []
+        for c in m["calls"]:
+            b = c.get("bound") or []
+            calls.append("⟨%s, [%s], [%s], %s⟩" % (lean_str(c["cls"]),
+                                                 ", ".join("(%s, %s)" % (lean_str(x[0]), lean_str(x[1])) for x in b),
+                                                 ", ".join(lean_str(x) for x in c.get("ctor_params", [])),
+                                                 "true" if c.get("ctor_kwargs") else "false"))
+        um = m["unmarshall"] or []
+        fl.append("  ⟨%s, [%s], %s, %s, [%s], [%s], %s, [%s]⟩" % (
+            lean_str(m["name"]), ", ".join(lean_str(x) for x in m["params"]), "true" if m["kwargs"] else "false", src,
+            ", ".join(calls), ", ".join(lean_str(e) for e in m["events"]),
+            "true" if m["en_raw_sense"] else "false",
+            ", ".join("(%s, %s)" % (lean_str(k if k else "**"), lean_str(v)) for k, v in um)))
     lines.append(",\n".join(fl))
     lines.append("]")
     lines.append("end Gen")
